@@ -101,7 +101,7 @@ def run(ctx):
     T = templates(ctx)
     ctx.cov['bounds'] = {'string_code_points': 2 if ctx.quick() else 3, 'collection_entries': 2, 'nesting': 2,
                          'spellings': 'escape form per char (short / \\\\uXXXX lower+upper hex / raw), digit separator, exponent form, unit name vs symbol, list comma spacing and trailing comma, dict separator space/comma, explicit :M markers, Z vs Z UTC, LF vs CRLF'}
-    S = sym.explore_templates(ctx, __import__('props.C04', fromlist=['x']), T, prog, split_depth=4, budget_s=270 if ctx.quick() else 1700)
+    S = sym.explore_templates(ctx, __import__('props.C04', fromlist=['x']), T, prog, split_depth=4, budget_s=700 if ctx.quick() else 3000)
     sym.native_check(ctx, S)
     ctx.cov['path_kinds'] = dict(collections.Counter(s['kind'] for s in S))
     mism = 0; validated = 0; unsup = collections.Counter(); nviol = 0
